@@ -19,6 +19,9 @@ use crate::scen::{caps_for, Scenario, Spec};
 use crate::with_spec;
 use crate::workload;
 
+/// run indices below this are huge-table images (std-side batch only)
+pub const HUGE_RUNS: u64 = 12;
+
 pub struct NoAllocResult {
     pub digest: u64,
     /// first op (index into ops, +1; 0 = open) during which the allocator was called
@@ -100,9 +103,35 @@ pub fn build_scenario(seed: u64, run: u64, tier: &str, samples: &Samples) -> (Sc
     let run_seed = mix(mix(seed, prop_id("C06")), run);
     let mut g = Rng::sub(run_seed, 1);
     let mut o = Rng::sub(run_seed, 2);
-    let img = gen::draw_image(&mut g, samples, Bias::Slice, thorough);
+    #[allow(unused_mut)]
+    let mut img = gen::draw_image(&mut g, samples, Bias::Slice, thorough);
+    // the first HUGE_RUNS run indices of the std-side batch are huge-table images
+    // (>= 0xff00 real section headers / >= 0xffff program headers, several MiB, every
+    // (class, order, way of naming .shstrtab) combination): whatever a handle builds only
+    // for tables beyond the SHN_LORESERVE / PN_XNUM escapes is met here
+    #[cfg(feature = "stream")]
+    let huge = run < HUGE_RUNS;
+    #[cfg(not(feature = "stream"))]
+    let huge = false;
+    #[cfg(feature = "stream")]
+    if huge {
+        let (b, r) = crate::sweep::huge_image(&mut g, run);
+        img.bytes = b;
+        img.recipe = r;
+        img.class_sig = 0x4000_0000 | run;
+    }
     let model = Model::of(&img.bytes);
-    let ops = workload::full_query_set(&img.bytes, &model, true);
+    let mut ops = workload::full_query_set(&img.bytes, &model, true);
+    if huge {
+        ops.truncate(24);
+        let n = ops.len() as u32;
+        for (j, name) in [".first", ".other", ".aa", ".xx", ".absent"].iter().enumerate() {
+            ops.push(OpRec {
+                id: n + 1 + j as u32,
+                op: crate::ops::Op::ByName((*name).to_string()),
+            });
+        }
+    }
     let caps = caps_for(&img.bytes, &model);
     let spec = workload::draw_spec(&mut o, &img.bytes);
     let mut recipe = img.recipe.clone();
